@@ -248,7 +248,7 @@ pub fn corr(ctx: &mut Ctx) {
             match *kind {
                 "smh" => {
                     ctx.op(&format!("smh new64 a {}", m));
-                    for x in &items { ctx.op(&format!("smh sk64 a {}", hx(hash_with::<FnvHasher, u64>(x)))); }
+                    for x in &items { ctx.op(&format!("smh sk64 a {}", fnv_tok(x))); }
                     let s = {
                         let mut s = SuperMinHash::<f64, u64, FnvHasher>::new(m, bh());
                         s.sketch_slice(&items).unwrap();
@@ -259,7 +259,7 @@ pub fn corr(ctx: &mut Ctx) {
                 }
                 "pmh3" => {
                     ctx.op(&format!("pmh3 new a {} {}", m, INIT));
-                    for x in &items { ctx.op(&format!("pmh3 item a {}:{}:{}", x, fhx(0.5 + (x % 13) as f64 * 0.75), hx(seed_fnv(*x)))); }
+                    for x in &items { ctx.op(&format!("pmh3 item a {}:{}:fnv", x, fhx(0.5 + (x % 13) as f64 * 0.75))); }
                     ctx.line("pmh3 sig a", &reference);
                 }
                 _ => {}
